@@ -8,6 +8,7 @@ a stub peer emit a small ZINC / JSON document carrying one 3.0-only construct wh
 channel's `verskew` fault rewrites the declared version; the reader's accept/reject must
 equal the model's and the Grid's and the writers' decision for the same version string.
 """
+import collections
 import copy
 import json
 import warnings
@@ -60,16 +61,29 @@ def mkv(hs, spec):
         if 'coord' in spec:
             return hs.Coordinate(spec['coord'][0], spec['coord'][1])
         if 'list' in spec:
-            return [mkv(hs, s) for s in spec['list']]
+            v = [mkv(hs, s) for s in spec['list']]
+            return _sub(list)(v) if spec.get('sub') else v
         if 'dict' in spec:
-            return {k: mkv(hs, s) for k, s in spec['dict'].items()}
+            v = {k: mkv(hs, s) for k, s in spec['dict'].items()}
+            return collections.OrderedDict(v) if spec.get('sub') else v
         if 'xstr' in spec:
-            return hs.XStr(spec['xstr'][0], spec['xstr'][1])
+            cls = _sub(hs.XStr) if spec.get('sub') else hs.XStr
+            return cls(spec['xstr'][0], spec['xstr'][1])
         if 'grid' in spec:
-            g = hs.Grid(version=spec['grid'].get('ver', '3.0'), columns=[('q', [])])
+            g = (_sub(hs.Grid) if spec.get('sub') else hs.Grid)(version=spec['grid'].get('ver', '3.0'), columns=[('q', [])])
             g.append({'q': spec['grid'].get('n', 1)})
             return g
     raise AssertionError(spec)
+
+
+_SUBS = {}
+
+
+def _sub(base):
+    """A trivial subclass of a library / builtin type: still that kind of value for every isinstance test."""
+    if base not in _SUBS:
+        _SUBS[base] = type('My' + base.__name__, (base,), {})
+    return _SUBS[base]
 
 
 def has_v3_value(hs, v):
@@ -97,12 +111,23 @@ def gen_value(r, p_v3, depth=0):
         if kind == 'na':
             return 'na'
         if kind == 'list':
-            return {'list': [gen_value(r, 0.3 if depth < 1 else 0, depth + 1) for _ in range(r.choice([0, 1, 2]))]}
+            v = {'list': [gen_value(r, 0.3 if depth < 1 else 0, depth + 1) for _ in range(r.choice([0, 1, 2]))]}
+            if r.random() < 0.2:
+                v['sub'] = True        # an instance of a subclass is still a list
+            return v
         if kind == 'dict':
-            return {'dict': {('k%d' % j): gen_value(r, 0.3 if depth < 1 else 0, depth + 1) for j in range(r.choice([0, 1, 2]))}}
+            v = {'dict': {('k%d' % j): gen_value(r, 0.3 if depth < 1 else 0, depth + 1) for j in range(r.choice([0, 1, 2]))}}
+            if r.random() < 0.2:
+                v['sub'] = True        # collections.OrderedDict
+            return v
+        sub = r.random() < 0.2
         if kind == 'grid':
-            return {'grid': {'ver': r.choice(['3.0', '2.0']), 'n': r.randrange(9)}}
-        return {'xstr': r.choice([['hex', 'deadbeef'], ['b64', 'aGVsbG8='], ['text', 'plain']])}
+            v = {'grid': {'ver': r.choice(['3.0', '2.0']), 'n': r.randrange(9)}}
+        else:
+            v = {'xstr': r.choice([['hex', 'deadbeef'], ['b64', 'aGVsbG8='], ['text', 'plain']])}
+        if sub:
+            v['sub'] = True
+        return v
     return r.choice([{'int': r.randrange(100)}, {'str': r.choice(['x', 'y z', ''])}, 'marker', 'none', 'remove',
                      {'bool': True}, {'ref': 'r1'}, {'qty': [1.5, 'm']}, {'uri': 'http://x/'}, {'coord': [1.0, 2.0]}])
 
